@@ -246,6 +246,8 @@ pub fn run(cx: &mut Ctx) {
         Ok(g) => g,
         Err(e) => return cx.anchor_missing("C11", &e),
     };
+    // the precedence rules read the grammar: python.rs must be what that grammar generates
+    crate::g1::run(cx, "C11.G1");
     let refd = match tables::refdata(&cx.verif, "unparse_positions.json") {
         Ok(v) => v,
         Err(e) => return cx.anchor_missing("C11", &e),
